@@ -4,10 +4,11 @@
    machine with the clock frozen at 0) computes.  The mid-level age list re-files an entry on
    every access while lfu_cache's open list does not, so the representation relates the used
    nodes to [lf_ents] only up to permutation (the order of lf_ents is unobservable in lfu). *)
-Require Import Capp.Base Capp.Spec Capp.Lfuda Capp.LfudaFacts Capp.RrLit Capp.LruLit Capp.LfudaLit.
+Require Import Capp.Base Capp.Spec Capp.Rr Capp.Lfuda Capp.LfudaFacts Capp.RrLit Capp.LruLit Capp.LfudaLit
+               Capp.LfudaLitFacts.
 From Coq Require Import Strings.String Permutation.
 
-Section LfuLitFacts.
+Section LfuLitDefs.
   Context {K V : Type} `{EqDec K}.
 
   (* key and value of the cell of node n (the stamp is irrelevant for lfu) *)
@@ -34,15 +35,885 @@ Section LfuLitFacts.
                      assoc k (dl_index l) = Some n /\
                      exists c, nth_error (dl_cells l) n = Some c /\ dc_lfu c = Some n) /\
       (forall k n, assoc k (dl_index l) = Some n -> In n used /\ dl_key l n = Some k).
+End LfuLitDefs.
 
-  Theorem fu_rep_init : forall cap, 1 <= cap -> fu_rep (lfdl_init cap 1 1 0) (lfu_init cap).
-  Admitted.
+(* ------------------------------------------------------------------------------------ *)
+(* a node sequence read through the cells, compared with the entries up to permutation   *)
+(* ------------------------------------------------------------------------------------ *)
+Section PermReads.
+  Context {K : Type} `{EqDec K} {V : Type}.
+  Local Open Scope list_scope.
+  Local Open Scope nat_scope.
 
-  Theorem fu_step_refines : forall t (l : lfdl K V) (s : lf K V) o now rnd,
+  (* an entry of the mid-level age list without its stamp *)
+  Definition pj (x : K * (V * Z)) : option (K * V) := Some (fst x, fst (snd x)).
+
+  Lemma perm_remk {A : Type} k (a : A) (l : list (K * A)) : NoDup (keys l) -> In (k, a) l ->
+    Permutation l ((k, a) :: remk k l).
+  Proof.
+    induction l as [|[k' a'] r IH]; intros N I; [destruct I|].
+    simpl in N. inversion N as [|y q Hni Hnd]; subst. simpl.
+    destruct (Base.eqb_spec k k') as [E|NE].
+    - subst k'. destruct I as [I|I].
+      + inversion I; subst a'. rewrite remk_notin by exact Hni. reflexivity.
+      + exfalso. apply Hni. eapply in_pair_keys. exact I.
+    - destruct I as [I|I]; [inversion I; congruence|].
+      eapply perm_trans; [apply perm_skip; apply IH; auto|]. apply perm_swap.
+  Qed.
+
+  Variable f : nat -> option (K * V).
+
+  Lemma preads_in ns (items : list (K * (V * Z))) n k v :
+    Permutation (map f ns) (map pj items) -> In n ns -> f n = Some (k, v) ->
+    exists z, In (k, (v, z)) items.
+  Proof.
+    intros P I Fn. assert (I' : In (f n) (map f ns)) by (apply in_map; auto).
+    eapply Permutation_in in I'; [|exact P]. rewrite Fn in I'.
+    apply in_map_iff in I'. destruct I' as ([k' [v' z]] & Ex & Ix).
+    unfold pj in Ex. simpl in Ex. inversion Ex; subst. eauto.
+  Qed.
+
+  Lemma preads_in_inv ns (items : list (K * (V * Z))) k v z :
+    Permutation (map f ns) (map pj items) -> In (k, (v, z)) items ->
+    exists n, In n ns /\ f n = Some (k, v).
+  Proof.
+    intros P I. assert (I' : In (pj (k, (v, z))) (map pj items)) by (apply in_map; auto).
+    eapply Permutation_in in I'; [|symmetry; exact P].
+    apply in_map_iff in I'. destruct I' as (n & En & In'). exists n. split; auto.
+  Qed.
+
+  Lemma preads_some ns (items : list (K * (V * Z))) n :
+    Permutation (map f ns) (map pj items) -> In n ns -> exists k v, f n = Some (k, v).
+  Proof.
+    intros P I. assert (I' : In (f n) (map f ns)) by (apply in_map; auto).
+    eapply Permutation_in in I'; [|exact P].
+    apply in_map_iff in I'. destruct I' as ([k [v z]] & Ex & Ix). unfold pj in Ex. simpl in Ex. eauto.
+  Qed.
+
+  Lemma preads_len ns (items : list (K * (V * Z))) :
+    Permutation (map f ns) (map pj items) -> List.length ns = List.length items.
+  Proof. intros P. apply Permutation_length in P. rewrite !map_length in P. exact P. Qed.
+
+  Lemma preads_remove ns (items : list (K * (V * Z))) n k v :
+    Permutation (map f ns) (map pj items) -> NoDup (keys items) -> In n ns -> f n = Some (k, v) ->
+    Permutation (map f (remove_nat n ns)) (map pj (remk k items)).
+  Proof.
+    intros P Nk I Fn.
+    destruct (preads_in _ _ _ _ _ P I Fn) as (z & Iz).
+    pose proof (perm_remk k (v, z) items Nk Iz) as P1.
+    pose proof (perm_remove_nat n ns I) as P2.
+    assert (P3 : Permutation (map f (n :: remove_nat n ns)) (map pj ((k, (v, z)) :: remk k items))).
+    { eapply perm_trans; [apply Permutation_map; exact P2|].
+      eapply perm_trans; [exact P|]. apply Permutation_map. exact P1. }
+    simpl in P3. rewrite Fn in P3. unfold pj at 1 in P3. simpl in P3.
+    eapply Permutation_cons_inv. exact P3.
+  Qed.
+End PermReads.
+
+(* ------------------------------------------------------------------------------------ *)
+(* the representation relation with the decomposition  list = used ++ free  explicit      *)
+(* ------------------------------------------------------------------------------------ *)
+Section FuRepFacts.
+  Context {K V : Type} `{EqDec K}.
+  Local Open Scope list_scope.
+  Local Open Scope nat_scope.
+
+  Definition fe (cs : list (dcell K V)) (n : nat) : option (K * V) :=
+    match nth_error cs n with
+    | Some {| dc_keyed := Some k; dc_lfu := _; dc_age := _; dc_val := Some v |} => Some (k, v)
+    | _ => None
+    end.
+
+  Record frep (l : lfdl K V) (s : lf K V) (used free : list nat) : Prop := {
+    f_list : dl_list l = used ++ free;
+    f_end : dl_end l = l_begin free;
+    f_cap : dl_cap l = lf_cap s;
+    f_clen : List.length (dl_cells l) = lf_cap s;
+    f_nd : NoDup (used ++ free);
+    f_llen : List.length (used ++ free) = lf_cap s;
+    f_bnd : forall n, In n (used ++ free) -> n < lf_cap s;
+    f_used : dl_used l = List.length used;
+    f_ixlen : List.length (dl_index l) = List.length used;
+    f_ixnd : NoDup (keys (dl_index l));
+    f_ents : Permutation (map (fe (dl_cells l)) used) (map pj (lf_ents s));
+    f_mm : rdmm (kf (dl_cells l)) (dl_mm l) = map (@Some (nat * K)) (lf_ord s);
+    f_mmnd : NoDup (map snd (dl_mm l));
+    f_mmused : forall n, In n used <-> In n (map snd (dl_mm l));
+    f_cell : forall n k v, In n used -> fe (dl_cells l) n = Some (k, v) ->
+               assoc k (dl_index l) = Some n /\
+               exists c, nth_error (dl_cells l) n = Some c /\ dc_lfu c = Some n;
+    f_ix : forall k n, assoc k (dl_index l) = Some n -> In n used /\ kf (dl_cells l) n = Some k
+  }.
+
+  Lemma frep_intro l s used free : frep l s used free -> fu_rep l s.
+  Proof.
+    intros R. destruct R. exists used, free.
+    rewrite f_list0. split; [reflexivity|].
+    repeat (split; [assumption|]). assumption.
+  Qed.
+
+  Lemma frep_elim l s : fu_rep l s -> exists used free, frep l s used free.
+  Proof.
+    intros (used & free & H1 & H2 & H3 & H7 & H8 & H9 & H10 & H11 & H12 & H13 & H14 &
+            H15 & H16 & H17 & H18 & H19).
+    exists used, free. rewrite H1 in H8, H9, H10.
+    constructor; assumption.
+  Qed.
+
+  Lemma fe_cell cs n k lf a v :
+    nth_error cs n = Some {| dc_keyed := Some k; dc_lfu := lf; dc_age := a; dc_val := Some v |} ->
+    fe cs n = Some (k, v).
+  Proof. intros E. unfold fe. rewrite E. reflexivity. Qed.
+
+  Lemma fe_inv cs n k v : fe cs n = Some (k, v) ->
+    exists lf a, nth_error cs n = Some {| dc_keyed := Some k; dc_lfu := lf; dc_age := a; dc_val := Some v |}.
+  Proof.
+    unfold fe. destruct (nth_error cs n) as [[[k'|] lf a' [v'|]]|]; intros E; inversion E; subst. eauto.
+  Qed.
+
+  Lemma fe_ext cs cs' n : nth_error cs' n = nth_error cs n -> fe cs' n = fe cs n.
+  Proof. intros E. unfold fe. rewrite E. reflexivity. Qed.
+
+  Lemma fe_mkcell cs n k m a v : nth_error cs n = Some (mkcell k m a v) -> fe cs n = Some (k, v).
+  Proof. intros E. unfold fe. rewrite E. reflexivity. Qed.
+
+  (* a used node: its cell, its index entry, its entry *)
+  Lemma fu_used_cell l s used free n : frep l s used free -> In n used ->
+    exists k v a, nth_error (dl_cells l) n = Some (mkcell k n a v) /\
+                  assoc k (dl_index l) = Some n /\ exists z, In (k, (v, z)) (lf_ents s).
+  Proof.
+    intros R I.
+    destruct (preads_some _ _ _ _ (f_ents _ _ _ _ R) I) as (k & v & E).
+    destruct (f_cell _ _ _ _ R n k v I E) as (Ei & c & Ec & El).
+    destruct (fe_inv _ _ _ _ E) as (lf & a & Ec').
+    exists k, v, a. split; [|split; [exact Ei|]].
+    - rewrite Ec' in Ec. inversion Ec; subst c. simpl in El. subst lf. exact Ec'.
+    - eapply preads_in; [exact (f_ents _ _ _ _ R)|exact I|exact E].
+  Qed.
+
+  Lemma fu_used_key l s used free n k : frep l s used free -> In n used -> kf (dl_cells l) n = Some k ->
+    exists v a, nth_error (dl_cells l) n = Some (mkcell k n a v) /\
+                assoc k (dl_index l) = Some n /\ exists z, In (k, (v, z)) (lf_ents s).
+  Proof.
+    intros R I Kn. destruct (fu_used_cell _ _ _ _ _ R I) as (k' & v & a & Ec & Ei & Ie).
+    rewrite (kf_cell _ _ _ Ec) in Kn. simpl in Kn. inversion Kn; subst k'. eauto.
+  Qed.
+
+  Lemma fu_used_inj l s used free x n k : frep l s used free -> In x used -> In n used ->
+    kf (dl_cells l) x = Some k -> kf (dl_cells l) n = Some k -> x = n.
+  Proof.
+    intros R Ix In' Kx Kn.
+    destruct (fu_used_key _ _ _ _ _ _ R Ix Kx) as (_ & _ & _ & E1 & _).
+    destruct (fu_used_key _ _ _ _ _ _ R In' Kn) as (_ & _ & _ & E2 & _).
+    congruence.
+  Qed.
+
+  Lemma frep_nodup_used l s used free : frep l s used free -> NoDup used.
+  Proof. intros R. eapply nodup_app_l. exact (f_nd _ _ _ _ R). Qed.
+
+  Lemma frep_len l s used free : frep l s used free -> List.length used = List.length (lf_ents s).
+  Proof. intros R. eapply preads_len. exact (f_ents _ _ _ _ R). Qed.
+
+  Lemma frep_lookup l s used free k n : frep l s used free -> NoDup (keys (lf_ents s)) ->
+    assoc k (dl_index l) = Some n ->
+    In n used /\ exists v a z, nth_error (dl_cells l) n = Some (mkcell k n a v) /\
+                               assoc k (lf_ents s) = Some (v, z).
+  Proof.
+    intros R Nk E. destruct (f_ix _ _ _ _ R k n E) as [I Kn]. split; auto.
+    destruct (fu_used_key _ _ _ _ _ _ R I Kn) as (v & a & Ec & _ & z & Ie).
+    exists v, a, z. split; auto. apply In_assoc; auto.
+  Qed.
+
+  Lemma frep_lookup_none l s used free k : frep l s used free ->
+    assoc k (dl_index l) = None -> assoc k (lf_ents s) = None.
+  Proof.
+    intros R E. destruct (assoc k (lf_ents s)) as [[v z]|] eqn:Ea; auto. exfalso.
+    apply assoc_In in Ea.
+    destruct (preads_in_inv _ _ _ _ _ _ (f_ents _ _ _ _ R) Ea) as (n & I & Fn).
+    destruct (f_cell _ _ _ _ R n k v I Fn) as (Ei & _). congruence.
+  Qed.
+
+  (* the use count of a used node *)
+  Lemma frep_count l s used free n k : frep l s used free -> In n used -> kf (dl_cells l) n = Some k ->
+    exists c, mm_count n (dl_mm l) = Some c /\ assoc2 k (lf_ord s) = Some c.
+  Proof.
+    intros R I Kn.
+    destruct (mm_count_in n (dl_mm l)) as (c & Ec). { apply (f_mmused _ _ _ _ R). exact I. }
+    exists c. split; auto. rewrite <- Ec. symmetry.
+    eapply rdmm_count; [exact Kn| |exact (f_mm _ _ _ _ R)].
+    intros x Ix Kx. eapply fu_used_inj; eauto. apply (f_mmused _ _ _ _ R). exact Ix.
+  Qed.
+
+  (* node n (key k) is accessed: it stays where it is in the list, its cell is rewritten with
+     the same key, its multimap pair re-emplaced with count c' *)
+  Lemma frep_refile l s used free n k cs' c' ents' :
+    frep l s used free -> In n used -> kf (dl_cells l) n = Some k ->
+    List.length cs' = lf_cap s ->
+    (exists a v, nth_error cs' n = Some (mkcell k n a v)) ->
+    (forall m, m <> n -> nth_error cs' m = nth_error (dl_cells l) m) ->
+    Permutation (map (fe cs') used) (map pj ents') ->
+    frep {| dl_cap := dl_cap l; dl_tick := dl_tick l; dl_rnum := dl_rnum l; dl_rk := dl_rk l;
+            dl_list := dl_list l; dl_cells := cs'; dl_end := dl_end l; dl_index := dl_index l;
+            dl_mm := mm_emplace c' n (mm_remove n (dl_mm l)); dl_used := dl_used l |}
+         (lf_with s (ord_insert c' k (rem2 k (lf_ord s))) ents') used free.
+  Proof.
+    intros R I Kn Hlen (a' & v' & Hn) Hm Hents.
+    destruct (fu_used_key _ _ _ _ _ _ R I Kn) as (v0 & a0 & Ec0 & Ei0 & Ie0).
+    assert (KF : forall m, kf cs' m = kf (dl_cells l) m).
+    { intros m. destruct (Nat.eq_dec m n) as [E|N].
+      - subst m. rewrite (kf_cell _ _ _ Hn), Kn. reflexivity.
+      - apply kf_ext. apply Hm. exact N. }
+    assert (IM : forall x, In x (map snd (mm_emplace c' n (mm_remove n (dl_mm l)))) <->
+                           x = n \/ (In x (map snd (dl_mm l)) /\ x <> n)).
+    { intros x. split.
+      - intros Ix. eapply Permutation_in in Ix; [|apply perm_mm_emplace].
+        destruct Ix as [E|Ix]; [left; auto|right].
+        rewrite snd_mm_remove in Ix. apply in_remove_nat in Ix; [exact Ix|exact (f_mmnd _ _ _ _ R)].
+      - intros Ix. eapply Permutation_in; [symmetry; apply perm_mm_emplace|].
+        destruct Ix as [E|Ix]; [left; auto|right].
+        rewrite snd_mm_remove. apply in_remove_nat; [exact (f_mmnd _ _ _ _ R)|exact Ix]. }
+    constructor; cbn [dl_cap dl_tick dl_rnum dl_rk dl_list dl_cells dl_end dl_index dl_mm dl_used
+                      lf_with lf_cap lf_tick lf_rnum lf_rk lf_ord lf_ents].
+    - exact (f_list _ _ _ _ R).
+    - exact (f_end _ _ _ _ R).
+    - exact (f_cap _ _ _ _ R).
+    - exact Hlen.
+    - exact (f_nd _ _ _ _ R).
+    - exact (f_llen _ _ _ _ R).
+    - exact (f_bnd _ _ _ _ R).
+    - exact (f_used _ _ _ _ R).
+    - exact (f_ixlen _ _ _ _ R).
+    - exact (f_ixnd _ _ _ _ R).
+    - exact Hents.
+    - rewrite (rdmm_ext (kf cs') (kf (dl_cells l))) by (intros; apply KF).
+      apply rdmm_emplace; [exact Kn|].
+      apply rdmm_remove; [exact Kn| |exact (f_mmnd _ _ _ _ R)|exact (f_mm _ _ _ _ R)].
+      intros x Ix Kx. eapply fu_used_inj; eauto. apply (f_mmused _ _ _ _ R). exact Ix.
+    - eapply Permutation_NoDup; [symmetry; apply perm_mm_emplace|].
+      rewrite snd_mm_remove. constructor.
+      + intros X. apply in_remove_nat in X; [|exact (f_mmnd _ _ _ _ R)]. destruct X as [_ X]. auto.
+      + apply nodup_remove_nat. exact (f_mmnd _ _ _ _ R).
+    - intros x. rewrite IM. rewrite <- (f_mmused _ _ _ _ R). split.
+      + intros Ix. destruct (Nat.eq_dec x n) as [E|N]; [left; auto|right]. split; auto.
+      + intros [E|[Ix _]]; [subst; auto|auto].
+    - intros m k0 v0' Im Em.
+      destruct (Nat.eq_dec m n) as [E|N].
+      + subst m. rewrite (fe_mkcell _ _ _ _ _ _ Hn) in Em. inversion Em; subst k0 v0'.
+        split; [exact Ei0|]. exists (mkcell k n a' v'). split; auto.
+      + rewrite (fe_ext (dl_cells l) cs' m (Hm m N)) in Em.
+        destruct (f_cell _ _ _ _ R m k0 v0' Im Em) as (Ea & c & Ec & El).
+        split; auto. exists c. rewrite Hm by exact N. auto.
+    - intros k0 m Em. destruct (f_ix _ _ _ _ R k0 m Em) as [Im Km]. split; [exact Im|].
+      rewrite KF. exact Km.
+  Qed.
+
+  (* node n (key k) is released: it becomes the first free node *)
+  Lemma frep_erase l s used free n k L :
+    frep l s used free -> NoDup (keys (lf_ents s)) -> In n used -> kf (dl_cells l) n = Some k ->
+    L = remove_nat n used ++ n :: free ->
+    frep {| dl_cap := dl_cap l; dl_tick := dl_tick l; dl_rnum := dl_rnum l; dl_rk := dl_rk l;
+            dl_list := L; dl_cells := dl_cells l; dl_end := It n; dl_index := remk k (dl_index l);
+            dl_mm := mm_remove n (dl_mm l); dl_used := dl_used l - 1 |}
+         (lf_erase_key s k) (remove_nat n used) (n :: free).
+  Proof.
+    intros R Nk I Kn EL.
+    pose proof (frep_nodup_used _ _ _ _ R) as Nu.
+    destruct (fu_used_key _ _ _ _ _ _ R I Kn) as (v0 & a0 & Ec0 & Ei0 & Ie0).
+    assert (P1 : Permutation (n :: remove_nat n used) used) by (apply perm_remove_nat; auto).
+    assert (P : Permutation (remove_nat n used ++ n :: free) (used ++ free)).
+    { eapply perm_trans; [symmetry; apply Permutation_middle|].
+      change (n :: remove_nat n used ++ free) with ((n :: remove_nat n used) ++ free).
+      apply Permutation_app_tail. exact P1. }
+    assert (L1 : S (List.length (remove_nat n used)) = List.length used).
+    { apply Permutation_length in P1. simpl in P1. exact P1. }
+    constructor; cbn [dl_cap dl_tick dl_rnum dl_rk dl_list dl_cells dl_end dl_index dl_mm dl_used
+                      lf_erase_key lf_with lf_cap lf_tick lf_rnum lf_rk lf_ord lf_ents].
+    - exact EL.
+    - reflexivity.
+    - exact (f_cap _ _ _ _ R).
+    - exact (f_clen _ _ _ _ R).
+    - eapply Permutation_NoDup; [symmetry; exact P|exact (f_nd _ _ _ _ R)].
+    - rewrite (Permutation_length P). exact (f_llen _ _ _ _ R).
+    - intros m Im. apply (f_bnd _ _ _ _ R). eapply Permutation_in; eauto.
+    - rewrite (f_used _ _ _ _ R). lia.
+    - pose proof (length_remk_S k (dl_index l) n (f_ixnd _ _ _ _ R) Ei0) as L2.
+      pose proof (f_ixlen _ _ _ _ R). lia.
+    - apply NoDup_remk. exact (f_ixnd _ _ _ _ R).
+    - eapply preads_remove; [exact (f_ents _ _ _ _ R)|exact Nk|exact I|].
+      eapply fe_mkcell. exact Ec0.
+    - apply rdmm_remove; [exact Kn| |exact (f_mmnd _ _ _ _ R)|exact (f_mm _ _ _ _ R)].
+      intros x Ix Kx. eapply fu_used_inj; eauto. apply (f_mmused _ _ _ _ R). exact Ix.
+    - rewrite snd_mm_remove. apply nodup_remove_nat. exact (f_mmnd _ _ _ _ R).
+    - intros x. rewrite snd_mm_remove.
+      rewrite in_remove_nat by exact Nu. rewrite in_remove_nat by exact (f_mmnd _ _ _ _ R).
+      rewrite (f_mmused _ _ _ _ R). tauto.
+    - intros m k0 v1 Im Em. apply in_remove_nat in Im; [|exact Nu]. destruct Im as [Im Nmn].
+      destruct (f_cell _ _ _ _ R m k0 v1 Im Em) as (Ea & c & Ec & El).
+      split; [|eauto]. rewrite assoc_remk_other; auto.
+      intros Ek. subst k0. rewrite Ei0 in Ea. inversion Ea. auto.
+    - intros k0 m Em. destruct (Base.eqb_spec k0 k) as [Ek|Nkk].
+      { subst k0. rewrite assoc_remk_same in Em. discriminate. }
+      rewrite assoc_remk_other in Em by auto.
+      destruct (f_ix _ _ _ _ R k0 m Em) as [Im Km]. split; auto.
+      apply in_remove_nat; auto. split; auto. intros Emn; subst m. congruence.
+  Qed.
+
+  (* the first free node n is claimed for (k, v); its stamp field keeps whatever it held *)
+  Lemma frep_claim l s used n free' k v a now :
+    frep l s used (n :: free') -> assoc k (dl_index l) = None ->
+    frep {| dl_cap := dl_cap l; dl_tick := dl_tick l; dl_rnum := dl_rnum l; dl_rk := dl_rk l;
+            dl_list := dl_list l; dl_cells := upd_nth n (mkcell k n a v) (dl_cells l);
+            dl_end := l_begin free'; dl_index := dl_index l ++ [(k, n)];
+            dl_mm := mm_emplace 1 n (dl_mm l); dl_used := S (dl_used l) |}
+         (lf_with s (ord_insert 1 k (lf_ord s)) (lf_ents s ++ [(k, (v, now))])) (used ++ [n]) free'.
+  Proof.
+    intros R E.
+    pose proof (frep_nodup_used _ _ _ _ R) as Nu.
+    assert (EA : (used ++ [n]) ++ free' = used ++ n :: free') by (rewrite <- app_assoc; reflexivity).
+    assert (Nn : ~ In n used).
+    { pose proof (f_nd _ _ _ _ R) as N. apply NoDup_remove_2 in N. intros I. apply N.
+      apply in_or_app; auto. }
+    assert (Hn : n < List.length (dl_cells l)).
+    { rewrite (f_clen _ _ _ _ R). apply (f_bnd _ _ _ _ R). apply in_or_app. right; left; auto. }
+    assert (Nm : ~ In n (map snd (dl_mm l))).
+    { intros I. apply Nn. apply (f_mmused _ _ _ _ R). exact I. }
+    assert (KF : forall m, m <> n -> kf (upd_nth n (mkcell k n a v) (dl_cells l)) m = kf (dl_cells l) m).
+    { intros m N. apply kf_ext. apply nth_error_upd_neq. exact N. }
+    assert (KN : kf (upd_nth n (mkcell k n a v) (dl_cells l)) n = Some k).
+    { rewrite (kf_cell _ _ _ (nth_error_upd_eq _ _ _ _ Hn)). reflexivity. }
+    constructor; cbn [dl_cap dl_tick dl_rnum dl_rk dl_list dl_cells dl_end dl_index dl_mm dl_used
+                      lf_with lf_cap lf_tick lf_rnum lf_rk lf_ord lf_ents].
+    - rewrite EA. exact (f_list _ _ _ _ R).
+    - reflexivity.
+    - exact (f_cap _ _ _ _ R).
+    - rewrite upd_nth_len. exact (f_clen _ _ _ _ R).
+    - rewrite EA. exact (f_nd _ _ _ _ R).
+    - rewrite EA. exact (f_llen _ _ _ _ R).
+    - rewrite EA. exact (f_bnd _ _ _ _ R).
+    - rewrite app_length. simpl. rewrite (f_used _ _ _ _ R). lia.
+    - rewrite !app_length. simpl. rewrite (f_ixlen _ _ _ _ R). lia.
+    - rewrite keys_app. simpl. apply NoDup_snoc; [exact (f_ixnd _ _ _ _ R)|].
+      apply assoc_None_iff. exact E.
+    - rewrite !map_app. apply Permutation_app.
+      + eapply perm_trans; [|exact (f_ents _ _ _ _ R)].
+        apply Permutation_refl'. apply map_ext_in. intros m Im. apply fe_ext.
+        apply nth_error_upd_neq. intros Emn; subst; auto.
+      + simpl. apply Permutation_refl'. f_equal.
+        eapply fe_mkcell. apply nth_error_upd_eq. exact Hn.
+    - apply rdmm_emplace; [exact KN|].
+      rewrite (rdmm_ext _ (kf (dl_cells l))); [exact (f_mm _ _ _ _ R)|].
+      intros x Ix. apply KF. intros Exn; subst; auto.
+    - eapply Permutation_NoDup; [symmetry; apply perm_mm_emplace|].
+      constructor; [exact Nm|exact (f_mmnd _ _ _ _ R)].
+    - intros x. rewrite in_app_iff. simpl. split.
+      + intros Ix. eapply Permutation_in; [symmetry; apply perm_mm_emplace|].
+        destruct Ix as [Ix|[Ix|[]]]; [right; apply (f_mmused _ _ _ _ R); auto|left; auto].
+      + intros Ix. eapply Permutation_in in Ix; [|apply perm_mm_emplace].
+        destruct Ix as [Ix|Ix]; [right; left; auto|left; apply (f_mmused _ _ _ _ R); auto].
+    - intros m k0 v0 Im Em. apply in_app_or in Im. destruct Im as [Im|[Im|[]]].
+      + assert (Nmn : m <> n) by (intros Emn; subst; auto).
+        rewrite (fe_ext (dl_cells l)) in Em by (apply nth_error_upd_neq; exact Nmn).
+        destruct (f_cell _ _ _ _ R m k0 v0 Im Em) as (Ea & c & Ec & El).
+        split.
+        * rewrite assoc_app, Ea. reflexivity.
+        * exists c. rewrite nth_error_upd_neq by exact Nmn. auto.
+      + subst m. rewrite (fe_mkcell _ _ _ _ _ _ (nth_error_upd_eq _ _ _ _ Hn)) in Em.
+        inversion Em; subst k0 v0. split.
+        * rewrite assoc_app, E. simpl. rewrite LfudaFacts.eqb_rfl. reflexivity.
+        * exists (mkcell k n a v). split; [apply nth_error_upd_eq; exact Hn|reflexivity].
+    - intros k0 m Em. rewrite assoc_app in Em.
+      destruct (assoc k0 (dl_index l)) as [m0|] eqn:A0.
+      + inversion Em; subst m0. destruct (f_ix _ _ _ _ R k0 m A0) as [Im Km]. split.
+        * apply in_or_app; auto.
+        * rewrite KF; auto. intros Emn; subst; auto.
+      + simpl in Em. destruct (Base.eqb_spec k0 k) as [Ek|Nk]; [|discriminate].
+        inversion Em; subst m k0. split; [apply in_or_app; right; left; auto|exact KN].
+  Qed.
+End FuRepFacts.
+
+(* ------------------------------------------------------------------------------------ *)
+(* the do_* helpers (da = false)                                                         *)
+(* ------------------------------------------------------------------------------------ *)
+Section FuOpFacts.
+  Context {K V : Type} `{EqDec K}.
+  Local Open Scope list_scope.
+  Local Open Scope nat_scope.
+
+  Lemma lfu_lf_inv t (s : lf K V) : lfu_inv t s -> lf_inv 0 s.
+  Proof. intros (I & _). exact I. Qed.
+
+  Lemma lfu_nodup t (s : lf K V) : lfu_inv t s -> NoDup (keys (lf_ents s)).
+  Proof. intros ((_ & _ & X & _) & _). exact X. Qed.
+
+  (* do_access on a used node: the computation (the list is not touched, the stamp is kept) *)
+  Lemma fu_access_ok (s : lfdl K V) n e k c now :
+    In n (dl_list s) ->
+    nth_error (dl_cells s) n = Some e -> dc_lfu e = Some n -> dc_keyed e = Some k ->
+    assoc k (dl_index s) = Some n -> mm_count n (dl_mm s) = Some c ->
+    dl_access false s n now =
+      Ok {| dl_cap := dl_cap s; dl_tick := dl_tick s; dl_rnum := dl_rnum s; dl_rk := dl_rk s;
+            dl_list := dl_list s;
+            dl_cells := upd_nth n {| dc_keyed := dc_keyed e; dc_lfu := Some n; dc_age := dc_age e;
+                                     dc_val := dc_val e |} (dl_cells s);
+            dl_end := dl_end s; dl_index := dl_index s;
+            dl_mm := mm_emplace (S c) n (mm_remove n (dl_mm s)); dl_used := dl_used s |}.
+  Proof.
+    intros Il Ec El Ek Ei Em.
+    assert (Hn : n < List.length (dl_cells s)) by (apply nth_error_Some; congruence).
+    unfold dl_access. rewrite (dcell_of_ok s n e Il Ec). cbn [bind].
+    unfold mm_deref, mm_erase. rewrite El, Em. cbn [bind].
+    unfold keyed_second. rewrite Ek, Ei. cbn [bind].
+    rewrite vset_ok by exact Hn. reflexivity.
+  Qed.
+
+  (* do_access of node n (key k), its cell possibly rewritten with a new value before *)
+  Lemma fu_access_ref (l : lfdl K V) (s : lf K V) used free n k v0 a v cs0 now :
+    frep l s used free -> NoDup (keys (lf_ents s)) -> In n used ->
+    nth_error (dl_cells l) n = Some (mkcell k n a v0) ->
+    List.length cs0 = lf_cap s -> nth_error cs0 n = Some (mkcell k n a v) ->
+    (forall m, m <> n -> nth_error cs0 m = nth_error (dl_cells l) m) ->
+    exists l', dl_access false (with_cells l cs0) n now = Ok l' /\
+               frep l' (lf_access s k v 0) used free /\
+               dl_index l' = dl_index l.
+  Proof.
+    intros R Nk I Ec Hlen Hn0 Hm0.
+    pose proof (frep_nodup_used _ _ _ _ R) as Nu.
+    assert (Kn : kf (dl_cells l) n = Some k) by (rewrite (kf_cell _ _ _ Ec); reflexivity).
+    destruct (frep_count _ _ _ _ _ _ R I Kn) as (c & Em & Ea2).
+    destruct (fu_used_key _ _ _ _ _ _ R I Kn) as (v1 & a1 & Ec1 & Ei & Ie).
+    assert (Il : In n (dl_list (with_cells l cs0))).
+    { cbn [with_cells dl_list]. rewrite (f_list _ _ _ _ R). apply in_or_app; auto. }
+    pose proof (fu_access_ok (with_cells l cs0) n (mkcell k n a v) k c now
+                  Il Hn0 eq_refl eq_refl Ei Em) as HA.
+    rewrite HA. eexists. split; [reflexivity|]. split; [|reflexivity].
+    cbn [with_cells dl_cap dl_tick dl_rnum dl_rk dl_list dl_cells dl_end dl_index dl_mm dl_used
+         mkcell dc_keyed dc_val dc_age].
+    unfold lf_access, lf_count. rewrite Ea2.
+    assert (Hn : n < List.length cs0) by (apply nth_error_Some; congruence).
+    apply (frep_refile l s used free n k _ (S c) _ R I Kn).
+    - rewrite upd_nth_len. exact Hlen.
+    - exists a, v. apply nth_error_upd_eq. exact Hn.
+    - intros m Nm. rewrite nth_error_upd_neq by exact Nm. apply Hm0. exact Nm.
+    - set (cs' := upd_nth n _ cs0).
+      assert (Fn : fe cs' n = Some (k, v)).
+      { eapply fe_cell. unfold cs'. apply nth_error_upd_eq. exact Hn. }
+      eapply perm_trans; [apply Permutation_map; symmetry; apply (perm_remove_nat n used I)|].
+      simpl map. rewrite Fn. rewrite map_app. simpl map.
+      eapply perm_trans; [|apply Permutation_cons_append].
+      change (pj (k, (v, 0%Z))) with (Some (k, v)). apply perm_skip.
+      erewrite map_ext_in.
+      + eapply preads_remove; [exact (f_ents _ _ _ _ R)|exact Nk|exact I|].
+        eapply fe_mkcell. exact Ec.
+      + intros m Im. apply in_remove_nat in Im; [|exact Nu]. destruct Im as [_ Nm].
+        apply fe_ext. unfold cs'. rewrite nth_error_upd_neq by exact Nm. apply Hm0. exact Nm.
+  Qed.
+
+  (* do_erase of the used node n holding key k *)
+  Lemma fu_erase_ref (l : lfdl K V) (s : lf K V) used free n k :
+    frep l s used free -> NoDup (keys (lf_ents s)) -> In n used -> kf (dl_cells l) n = Some k ->
+    exists l', dl_do_erase l n = Ok l' /\
+               frep l' (lf_erase_key s k) (remove_nat n used) (n :: free).
+  Proof.
+    intros R Nk I Kn.
+    destruct (frep_count _ _ _ _ _ _ R I Kn) as (c & Em & Ea2).
+    destruct (fu_used_key _ _ _ _ _ _ R I Kn) as (v1 & a1 & Ec1 & Ei & Ie).
+    rewrite (dl_do_erase_ok l used free n (mkcell k n a1 v1) k c
+               (f_list _ _ _ _ R) (f_end _ _ _ _ R) (f_nd _ _ _ _ R) I Ec1 eq_refl eq_refl Ei Em
+               (f_used _ _ _ _ R)).
+    eexists. split; [reflexivity|].
+    apply frep_erase; auto.
+  Qed.
+
+  (* do_prune on a non-empty cache: no aging, the multimap's first pair is erased *)
+  Lemma fu_prune_ref (l : lfdl K V) (s : lf K V) used free now c kv rest :
+    frep l s used free -> NoDup (keys (lf_ents s)) -> used <> [] ->
+    lf_ord s = (c, kv) :: rest ->
+    exists l' used' n, dl_do_prune false l now = Ok l' /\
+       frep l' (lf_erase_key s kv) used' (n :: free).
+  Proof.
+    intros R Nk Hne HO.
+    unfold dl_do_prune.
+    assert (C : (0 <? dl_used l) = true).
+    { apply Nat.ltb_lt. rewrite (f_used _ _ _ _ R). destruct used; [congruence|simpl; lia]. }
+    rewrite C. cbn [bind].
+    pose proof (f_mm _ _ _ _ R) as HM. rewrite HO in HM.
+    destruct (dl_mm l) as [|[c1 n] mm'] eqn:EM; simpl in HM; [discriminate|].
+    injection HM as HM1 HM2.
+    assert (Kn : kf (dl_cells l) n = Some kv).
+    { destruct (kf (dl_cells l) n); inversion HM1; auto. }
+    assert (In1 : In n used). { apply (f_mmused _ _ _ _ R). rewrite EM. left; reflexivity. }
+    destruct (fu_erase_ref l _ used free n kv R Nk In1 Kn) as (l' & D' & R').
+    exists l', (remove_nat n used), n. split; [exact D'|exact R'].
+  Qed.
+
+  (* do_insert when there is a free node *)
+  Lemma fu_insert_nonfull (l : lfdl K V) (s : lf K V) used free k v now :
+    frep l s used free -> List.length (lf_ents s) < lf_cap s -> assoc k (dl_index l) = None ->
+    exists l' used' free', dl_do_insert false l k v now = Ok l' /\
+                           frep l' (lf_add s k v 0) used' free'.
+  Proof.
+    intros R Hlt E. pose proof (frep_len _ _ _ _ R) as Lu.
+    destruct free as [|n free'].
+    { exfalso. pose proof (f_llen _ _ _ _ R) as X. rewrite app_nil_r in X. lia. }
+    assert (Il : In n (dl_list l)).
+    { rewrite (f_list _ _ _ _ R). apply in_or_app. right; left; reflexivity. }
+    assert (Nn : ~ In n used).
+    { pose proof (f_nd _ _ _ _ R) as N. apply NoDup_remove_2 in N. intros I. apply N.
+      apply in_or_app; auto. }
+    assert (Hn : n < List.length (dl_cells l)).
+    { rewrite (f_clen _ _ _ _ R). apply (f_bnd _ _ _ _ R). apply in_or_app. right; left; auto. }
+    destruct (nth_error (dl_cells l) n) as [e|] eqn:Ec; [|apply nth_error_None in Ec; lia].
+    assert (C1 : (List.length (dl_list l) <=? dl_used l) = false).
+    { apply Nat.leb_gt. rewrite (f_list _ _ _ _ R), (f_llen _ _ _ _ R), (f_used _ _ _ _ R). lia. }
+    assert (D1 : dcell_of l (dl_end l) = Ok (n, e)).
+    { rewrite (f_end _ _ _ _ R). simpl l_begin. apply dcell_of_ok; auto. }
+    assert (C2 : (List.length (dl_index l) <? dl_cap l) = true).
+    { apply Nat.ltb_lt. rewrite (f_ixlen _ _ _ _ R), (f_cap _ _ _ _ R). lia. }
+    assert (D2 : l_next (dl_list l) (dl_end l) = Ok (l_begin free')).
+    { rewrite (f_end _ _ _ _ R). simpl l_begin. unfold l_next. rewrite (mem_nat_in _ _ Il).
+      rewrite (f_list _ _ _ _ R), after_app by exact Nn. reflexivity. }
+    unfold dl_do_insert. rewrite C1. cbn [bind]. rewrite D1. cbn [bind].
+    unfold index_emplace. rewrite C2. cbn [bind]. rewrite vset_ok by exact Hn. cbn [bind].
+    rewrite D2. cbn [bind].
+    eexists. exists (used ++ [n]), free'. split; [reflexivity|].
+    exact (frep_claim l s used n free' k v (dc_age e) 0%Z R E).
+  Qed.
+
+  Lemma frep_ix_none (l : lfdl K V) (s : lf K V) used free k :
+    frep l s used free -> ~ In k (keys (lf_ents s)) -> assoc k (dl_index l) = None.
+  Proof.
+    intros R N. destruct (assoc k (dl_index l)) as [n|] eqn:A; auto. exfalso.
+    destruct (f_ix _ _ _ _ R k n A) as [I Kn].
+    destruct (fu_used_key _ _ _ _ _ _ R I Kn) as (v & a & _ & _ & z & Ie).
+    apply N. eapply in_pair_keys. exact Ie.
+  Qed.
+
+  (* do_insert_update *)
+  Lemma fu_ins_ref t (l : lfdl K V) (s : lf K V) k v a now :
+    lfu_inv t s -> fu_rep l s ->
+    exists l', dl_ins false l k v a now = Ok (l', snd (lf_ins s k v a 0)) /\
+               fu_rep l' (fst (lf_ins s k v a 0)).
+  Proof.
+    intros IU Rp. destruct (frep_elim _ _ Rp) as (used & free & R).
+    pose proof (lfu_lf_inv t s IU) as Inv. pose proof (lfu_nodup t s IU) as Nk.
+    pose proof (lfu_dyn_age_id t s IU) as EDA.
+    destruct (lf_ins s k v a 0) as [s' b] eqn:EI. cbn [fst snd].
+    unfold dl_ins. destruct (assoc k (dl_index l)) as [n|] eqn:A.
+    - destruct (frep_lookup _ _ _ _ _ _ R Nk A) as (I & v0 & a0 & z0 & Ec & EA).
+      unfold lf_ins in EI. rewrite EA in EI. destruct (a_upd a).
+      + inversion EI; subst s' b. clear EI.
+        assert (Il : In n (dl_list l)) by (rewrite (f_list _ _ _ _ R); apply in_or_app; auto).
+        assert (Hn : n < List.length (dl_cells l)) by (apply nth_error_Some; congruence).
+        destruct (fu_access_ref l s used free n k v0 a0 v (upd_nth n (mkcell k n a0 v) (dl_cells l)) now
+                    R Nk I Ec) as (l' & D & R' & _).
+        { rewrite upd_nth_len. exact (f_clen _ _ _ _ R). }
+        { apply nth_error_upd_eq. exact Hn. }
+        { intros m Nm. apply nth_error_upd_neq. exact Nm. }
+        unfold dl_do_update. rewrite (dcell_of_ok l n _ Il Ec). cbn [bind].
+        rewrite vset_ok by exact Hn. cbn [bind mkcell dc_keyed dc_lfu dc_age dc_val].
+        unfold mkcell in D. rewrite D. cbn [bind].
+        exists l'. split; [reflexivity|]. eapply frep_intro; eauto.
+      + inversion EI; subst s' b. exists l. auto.
+    - pose proof (frep_lookup_none _ _ _ _ _ R A) as EA.
+      assert (HG : lf_get s k = None) by (apply lf_get_None; exact EA).
+      destruct (lf_ins_cases 0 s k v a 0 s' b Inv (Z.le_refl 0) EI)
+        as [(HG' & _)|[(HB & ES & HC)|[(_ & HI & HB & HSz & ES)|(_ & HI & HB & HSz & c & kv & rest & HO & ES)]]].
+      + congruence.
+      + destruct HC as [(HG' & _)|(_ & HI)]; [congruence|]. rewrite HI. subst s' b. exists l. auto.
+      + rewrite HI. subst s' b. unfold lf_size in HSz.
+        destruct (fu_insert_nonfull l s used free k v now R HSz A) as (l' & u' & f' & D & R').
+        rewrite D. cbn [bind]. exists l'. split; [reflexivity|]. eapply frep_intro; eauto.
+      + rewrite HI. subst s' b.
+        destruct (lf_evict_facts 0 s k 0 c kv rest Inv (Z.le_refl 0) HSz HG HO)
+          as (I1 & G1 & I2 & Nk2 & Hlen2 & Hcap2 & _).
+        rewrite EDA in HO, I2, Nk2, Hlen2, Hcap2. cbn [fst] in HO, I2, Nk2, Hlen2, Hcap2.
+        rewrite EDA. cbn [fst].
+        pose proof (frep_len _ _ _ _ R) as Lu. unfold lf_size in HSz.
+        assert (Hne : used <> []).
+        { intros X. subst used. simpl in Lu. destruct Inv as (Hc & _). lia. }
+        destruct (fu_prune_ref l s used free now c kv rest R Nk Hne HO) as (l1 & u1 & n1 & D1 & R1).
+        set (s2 := lf_erase_key s kv) in *.
+        assert (A1 : assoc k (dl_index l1) = None) by (eapply frep_ix_none; eauto).
+        assert (Hlt : List.length (lf_ents s2) < lf_cap s2) by lia.
+        destruct (fu_insert_nonfull l1 s2 u1 (n1 :: free) k v now R1 Hlt A1) as (l' & u' & f' & D & R').
+        assert (DI : dl_do_insert false l k v now = dl_do_insert false l1 k v now).
+        { unfold dl_do_insert.
+          assert (Ca : (List.length (dl_list l) <=? dl_used l) = true).
+          { apply Nat.leb_le. rewrite (f_list _ _ _ _ R), (f_llen _ _ _ _ R), (f_used _ _ _ _ R). lia. }
+          assert (Cb : (List.length (dl_list l1) <=? dl_used l1) = false).
+          { apply Nat.leb_gt. rewrite (f_list _ _ _ _ R1), (f_llen _ _ _ _ R1), (f_used _ _ _ _ R1).
+            rewrite (frep_len _ _ _ _ R1). exact Hlt. }
+          rewrite Ca, Cb, D1. reflexivity. }
+        rewrite DI, D. cbn [bind]. exists l'. split; [reflexivity|]. eapply frep_intro; eauto.
+  Qed.
+
+  (* erase(key) *)
+  Lemma fu_erase_key_ref t (l : lfdl K V) (s : lf K V) k :
+    lfu_inv t s -> fu_rep l s ->
+    exists l', dl_erase l k = Ok (l', snd (lf_erase s k)) /\ fu_rep l' (fst (lf_erase s k)).
+  Proof.
+    intros IU Rp. destruct (frep_elim _ _ Rp) as (used & free & R).
+    pose proof (lfu_nodup t s IU) as Nk.
+    unfold dl_erase, lf_erase. destruct (assoc k (dl_index l)) as [n|] eqn:A.
+    - destruct (frep_lookup _ _ _ _ _ _ R Nk A) as (I & v0 & a0 & z0 & Ec & EA). rewrite EA.
+      assert (Kn : kf (dl_cells l) n = Some k) by (rewrite (kf_cell _ _ _ Ec); reflexivity).
+      destruct (fu_erase_ref l s used free n k R Nk I Kn) as (l' & D & R').
+      rewrite D. cbn [bind fst snd]. exists l'. split; [reflexivity|]. eapply frep_intro; eauto.
+    - rewrite (frep_lookup_none _ _ _ _ _ R A). exists l. auto.
+  Qed.
+
+  (* reading the node the index gives for a key: its value and its use count *)
+  Lemma fu_read_node (l : lfdl K V) (s : lf K V) used free k n :
+    frep l s used free -> NoDup (keys (lf_ents s)) -> assoc k (dl_index l) = Some n ->
+    exists e v z, dcell_of l (It n) = Ok (n, e) /\ dc_val e = Some v /\
+                  mm_deref (dl_mm l) (dc_lfu e) = Ok (lf_count s k) /\
+                  assoc k (lf_ents s) = Some (v, z).
+  Proof.
+    intros R Nk A. destruct (frep_lookup _ _ _ _ _ _ R Nk A) as (I & v0 & a0 & z0 & Ec & EA).
+    assert (Kn : kf (dl_cells l) n = Some k) by (rewrite (kf_cell _ _ _ Ec); reflexivity).
+    destruct (frep_count _ _ _ _ _ _ R I Kn) as (c & Em & Ea2).
+    assert (Il : In n (dl_list l)) by (rewrite (f_list _ _ _ _ R); apply in_or_app; auto).
+    exists (mkcell k n a0 v0), v0, z0. split; [apply dcell_of_ok; auto|]. split; [reflexivity|].
+    split; [|exact EA]. unfold mm_deref, lf_count. cbn [mkcell dc_lfu]. rewrite Em, Ea2. reflexivity.
+  Qed.
+
+  Lemma lfu_access_nodup t (s : lf K V) k v : lfu_inv t s -> In k (keys (lf_ents s)) ->
+    NoDup (keys (lf_ents (lf_access s k v 0))).
+  Proof.
+    intros IU I. pose proof (lfu_lf_inv t s IU) as Inv.
+    pose proof (lf_inv_access 0 s k v 0 Inv (Z.le_refl 0) I) as (_ & _ & X & _). exact X.
+  Qed.
+
+  (* do_find_with_use_count *)
+  Lemma fu_find_use_ref t (l : lfdl K V) (s : lf K V) k pk now :
+    lfu_inv t s -> fu_rep l s ->
+    exists l', dl_find_use false l k pk now = Ok (l', snd (lf_find_use s k pk 0)) /\
+               fu_rep l' (fst (lf_find_use s k pk 0)).
+  Proof.
+    intros IU Rp. destruct (frep_elim _ _ Rp) as (used & free & R).
+    pose proof (lfu_nodup t s IU) as Nk.
+    unfold dl_find_use, lf_find_use. destruct (assoc k (dl_index l)) as [n|] eqn:A.
+    - destruct (frep_lookup _ _ _ _ _ _ R Nk A) as (I & v0 & a0 & z0 & Ec & EA). rewrite EA.
+      destruct pk.
+      + cbn [bind fst snd].
+        destruct (fu_read_node l s used free k n R Nk A) as (e & v1 & z1 & D1 & Ev & Dm & EA1).
+        rewrite D1. cbn [bind]. rewrite Dm. cbn [bind]. rewrite Ev.
+        rewrite EA in EA1. inversion EA1; subst v1 z1.
+        exists l. split; [reflexivity|exact Rp].
+      + destruct (fu_access_ref l s used free n k v0 a0 v0 (dl_cells l) now R Nk I Ec
+                    (f_clen _ _ _ _ R) Ec (fun m _ => eq_refl)) as (l' & D & R' & Ex).
+        rewrite with_cells_id in D. rewrite D. cbn [bind fst snd].
+        assert (Nk1 : NoDup (keys (lf_ents (lf_access s k v0 0)))).
+        { apply (lfu_access_nodup t); auto. apply assoc_Some_keys. congruence. }
+        assert (A' : assoc k (dl_index l') = Some n) by (rewrite Ex; exact A).
+        destruct (fu_read_node l' _ _ free k n R' Nk1 A') as (e & v1 & z1 & D1 & Ev & Dm & EA1).
+        rewrite D1. cbn [bind]. rewrite Dm. cbn [bind]. rewrite Ev.
+        rewrite ents_access_same in EA1. inversion EA1; subst v1 z1.
+        exists l'. split; [reflexivity|]. eapply frep_intro; eauto.
+    - rewrite (frep_lookup_none _ _ _ _ _ R A). exists l. auto.
+  Qed.
+
+  (* do_find *)
+  Lemma fu_find_ref t (l : lfdl K V) (s : lf K V) k pk now :
+    lfu_inv t s -> fu_rep l s ->
+    exists l', dl_find false l k pk now = Ok (l', snd (lf_find s k pk 0)) /\
+               fu_rep l' (fst (lf_find s k pk 0)).
+  Proof.
+    intros IU Rp. destruct (frep_elim _ _ Rp) as (used & free & R).
+    pose proof (lfu_nodup t s IU) as Nk.
+    unfold dl_find, lf_find, lf_find_use. destruct (assoc k (dl_index l)) as [n|] eqn:A.
+    - destruct (frep_lookup _ _ _ _ _ _ R Nk A) as (I & v0 & a0 & z0 & Ec & EA). rewrite EA.
+      destruct pk.
+      + cbn [bind fst snd].
+        destruct (fu_read_node l s used free k n R Nk A) as (e & v1 & z1 & D1 & Ev & Dm & EA1).
+        rewrite D1. cbn [bind snd]. rewrite Ev.
+        rewrite EA in EA1. inversion EA1; subst v1 z1.
+        exists l. split; [reflexivity|exact Rp].
+      + destruct (fu_access_ref l s used free n k v0 a0 v0 (dl_cells l) now R Nk I Ec
+                    (f_clen _ _ _ _ R) Ec (fun m _ => eq_refl)) as (l' & D & R' & Ex).
+        rewrite with_cells_id in D. rewrite D. cbn [bind fst snd].
+        assert (Nk1 : NoDup (keys (lf_ents (lf_access s k v0 0)))).
+        { apply (lfu_access_nodup t); auto. apply assoc_Some_keys. congruence. }
+        assert (A' : assoc k (dl_index l') = Some n) by (rewrite Ex; exact A).
+        destruct (fu_read_node l' _ _ free k n R' Nk1 A') as (e & v1 & z1 & D1 & Ev & Dm & EA1).
+        rewrite D1. cbn [bind snd]. rewrite Ev.
+        rewrite ents_access_same in EA1. inversion EA1; subst v1 z1.
+        exists l'. split; [reflexivity|]. eapply frep_intro; eauto.
+    - rewrite (frep_lookup_none _ _ _ _ _ R A). exists l. auto.
+  Qed.
+End FuOpFacts.
+
+(* ------------------------------------------------------------------------------------ *)
+(* range calls                                                                           *)
+(* ------------------------------------------------------------------------------------ *)
+Section FuRangeFacts.
+  Context {K V : Type} `{EqDec K}.
+  Local Open Scope list_scope.
+  Local Open Scope nat_scope.
+
+  (* [lfu_inv t] depends on [t] only through 0 <= t, and is kept by every single call *)
+  Lemma lfu_ins_inv t (s : lf K V) k v a : lfu_inv t s -> lfu_inv t (fst (lf_ins s k v a 0)).
+  Proof.
+    intros I. destruct (lf_ins s k v a 0) as [s1 b] eqn:E.
+    apply (lfu_inv_step t s (Insert 0%Z k v a) t [] s1 (RB b) I (Z.le_refl t) eq_refl).
+    simpl. rewrite E. reflexivity.
+  Qed.
+  Lemma lfu_erase_inv t (s : lf K V) k : lfu_inv t s -> lfu_inv t (fst (lf_erase s k)).
+  Proof.
+    intros I. destruct (lf_erase s k) as [s1 b] eqn:E.
+    apply (lfu_inv_step t s (Erase k) t [] s1 (RB b) I (Z.le_refl t) eq_refl).
+    simpl. rewrite E. reflexivity.
+  Qed.
+  Lemma lfu_find_inv t (s : lf K V) k pk : lfu_inv t s -> lfu_inv t (fst (lf_find s k pk 0)).
+  Proof.
+    intros I. destruct (lf_find s k pk 0) as [s1 r] eqn:E.
+    apply (lfu_inv_step t s (Find k pk) t [] s1 (RO r) I (Z.le_refl t) eq_refl).
+    simpl. rewrite E. reflexivity.
+  Qed.
+  Lemma lfu_find_use_inv t (s : lf K V) k pk : lfu_inv t s -> lfu_inv t (fst (lf_find_use s k pk 0)).
+  Proof.
+    intros I. destruct (lf_find_use s k pk 0) as [s1 r] eqn:E.
+    apply (lfu_inv_step t s (FindUse k pk) t [] s1 (RU r) I (Z.le_refl t) eq_refl).
+    simpl. rewrite E. reflexivity.
+  Qed.
+
+  Lemma fu_ins_range_ref t now xs : forall (l : lfdl K V) (s : lf K V) a n,
+    lfu_inv t s -> fu_rep l s ->
+    exists l', dl_ins_range false l xs a now n = Ok (l', snd (lf_ins_range s xs a 0 n)) /\
+               fu_rep l' (fst (lf_ins_range s xs a 0 n)) /\
+               lfu_inv t (fst (lf_ins_range s xs a 0 n)).
+  Proof.
+    induction xs as [|[[z k] v] r IH]; intros l s a n I R; simpl.
+    - exists l. split; [reflexivity|]. split; [exact R|exact I].
+    - destruct (fu_ins_ref t l s k v a now I R) as (l1 & D1 & R1).
+      pose proof (lfu_ins_inv t s k v a I) as I1.
+      destruct (lf_ins s k v a 0) as [s1 b]. cbn [fst snd] in *.
+      rewrite D1. cbn [bind].
+      apply (IH l1 s1 a (if b then S n else n) I1 R1).
+  Qed.
+
+  Lemma fu_erase_range_ref t ks : forall (l : lfdl K V) (s : lf K V) n,
+    lfu_inv t s -> fu_rep l s ->
+    exists l', dl_erase_range l ks n = Ok (l', snd (lf_erase_range s ks n)) /\
+               fu_rep l' (fst (lf_erase_range s ks n)) /\
+               lfu_inv t (fst (lf_erase_range s ks n)).
+  Proof.
+    induction ks as [|k r IH]; intros l s n I R; simpl.
+    - exists l. split; [reflexivity|]. split; [exact R|exact I].
+    - destruct (fu_erase_key_ref t l s k I R) as (l1 & D1 & R1).
+      pose proof (lfu_erase_inv t s k I) as I1.
+      destruct (lf_erase s k) as [s1 b]. cbn [fst snd] in *.
+      rewrite D1. cbn [bind].
+      apply (IH l1 s1 (if b then S n else n) I1 R1).
+  Qed.
+
+  Lemma fu_find_range_ref t now pk ks : forall (l : lfdl K V) (s : lf K V),
+    lfu_inv t s -> fu_rep l s ->
+    exists l', dl_find_range false l ks pk now = Ok (l', snd (lf_find_range s ks pk 0)) /\
+               fu_rep l' (fst (lf_find_range s ks pk 0)) /\
+               lfu_inv t (fst (lf_find_range s ks pk 0)).
+  Proof.
+    induction ks as [|k r IH]; intros l s I R; simpl.
+    - exists l. split; [reflexivity|]. split; [exact R|exact I].
+    - destruct (fu_find_ref t l s k pk now I R) as (l1 & D1 & R1).
+      pose proof (lfu_find_inv t s k pk I) as I1.
+      destruct (lf_find s k pk 0) as [s1 o]. cbn [fst snd] in *.
+      rewrite D1. cbn [bind].
+      destruct (IH l1 s1 I1 R1) as (l2 & D2 & R2 & I2).
+      rewrite D2. cbn [bind].
+      destruct (lf_find_range s1 r pk 0) as [s2 os]. cbn [fst snd] in *.
+      exists l2. split; [reflexivity|]. split; assumption.
+  Qed.
+End FuRangeFacts.
+
+Section LfuLitFacts.
+  Context {K V : Type} `{EqDec K}.
+
+  Theorem fu_rep_init : forall cap, 1 <= cap -> fu_rep (K := K) (V := V) (lfdl_init cap 1 1 0) (lfu_init cap).
+  Proof.
+    intros cap Hc. apply (frep_intro _ _ [] (seq 0 cap)).
+    constructor; unfold lfdl_init, lfu_init, lf_init;
+      cbn [dl_cap dl_tick dl_rnum dl_rk dl_list dl_cells dl_end dl_index dl_mm dl_used
+           lf_cap lf_tick lf_rnum lf_rk lf_ord lf_ents app map]; try reflexivity.
+    - apply repeat_length.
+    - apply seq_NoDup.
+    - apply seq_length.
+    - intros n I. apply in_seq in I. lia.
+    - constructor.
+    - constructor.
+    - intros n k v [].
+    - intros k n E. discriminate.
+  Qed.
+
+  Lemma fu_rep_sizes (l : lfdl K V) (s : lf K V) : fu_rep l s ->
+    dl_used l = lf_size s /\ List.length (dl_list l) = lf_cap s /\ List.length (dl_cells l) = lf_cap s.
+  Proof.
+    intros Rp. destruct (frep_elim _ _ Rp) as (used & free & R).
+    split; [|split].
+    - rewrite (f_used _ _ _ _ R). unfold lf_size. apply (frep_len _ _ _ _ R).
+    - rewrite (f_list _ _ _ _ R). exact (f_llen _ _ _ _ R).
+    - exact (f_clen _ _ _ _ R).
+  Qed.
+
+  (* one public call; the invariant [lfu_inv t] is kept for the same t (it mentions t only in 0 <= t) *)
+  Lemma fu_step_refines_t : forall t (l : lfdl K V) (s : lf K V) o now rnd,
       lfu_inv t s -> fu_rep l s ->
       exists l', dl_step false l o now rnd = Ok (l', snd (lfu_step s o now rnd)) /\
+                 fu_rep l' (fst (lfu_step s o now rnd)) /\ lfu_inv t (fst (lfu_step s o now rnd)).
+  Proof.
+    intros t l s o now rnd I R.
+    destruct (fu_rep_sizes l s R) as (Hsz & Hcap & _).
+    destruct o as [ttl k v a|xs a|k|ks|k pk|ks pk|ks pk|k pk| |d| | | | | ]; simpl;
+      try (exists l; split; [reflexivity|split; [exact R|exact I]]).
+    - destruct (fu_ins_ref t l s k v a now I R) as (l1 & D1 & R1).
+      pose proof (lfu_ins_inv t s k v a I) as I1.
+      destruct (lf_ins s k v a 0) as [s1 b]. cbn [fst snd] in *.
+      rewrite D1. cbn [bind]. exists l1. auto.
+    - destruct (fu_ins_range_ref t now xs l s a 0 I R) as (l1 & D1 & R1 & I1).
+      destruct (lf_ins_range s xs a 0 0) as [s1 n]. cbn [fst snd] in *.
+      rewrite D1. cbn [bind]. exists l1. auto.
+    - destruct (fu_erase_key_ref t l s k I R) as (l1 & D1 & R1).
+      pose proof (lfu_erase_inv t s k I) as I1.
+      destruct (lf_erase s k) as [s1 b]. cbn [fst snd] in *.
+      rewrite D1. cbn [bind]. exists l1. auto.
+    - destruct (fu_erase_range_ref t ks l s 0 I R) as (l1 & D1 & R1 & I1).
+      destruct (lf_erase_range s ks 0) as [s1 n]. cbn [fst snd] in *.
+      rewrite D1. cbn [bind]. exists l1. auto.
+    - destruct (fu_find_ref t l s k pk now I R) as (l1 & D1 & R1).
+      pose proof (lfu_find_inv t s k pk I) as I1.
+      destruct (lf_find s k pk 0) as [s1 r]. cbn [fst snd] in *.
+      rewrite D1. cbn [bind]. exists l1. auto.
+    - destruct (fu_find_range_ref t now pk ks l s I R) as (l1 & D1 & R1 & I1).
+      destruct (lf_find_range s ks pk 0) as [s1 r]. cbn [fst snd] in *.
+      rewrite D1. cbn [bind]. exists l1. auto.
+    - destruct (fu_find_range_ref t now pk ks l s I R) as (l1 & D1 & R1 & I1).
+      destruct (lf_find_range s ks pk 0) as [s1 r]. cbn [fst snd] in *.
+      rewrite D1. cbn [bind]. exists l1. auto.
+    - destruct (fu_find_use_ref t l s k pk now I R) as (l1 & D1 & R1).
+      pose proof (lfu_find_use_inv t s k pk I) as I1.
+      destruct (lf_find_use s k pk 0) as [s1 r]. cbn [fst snd] in *.
+      rewrite D1. cbn [bind]. exists l1. auto.
+    - exists l. rewrite Hsz. split; [reflexivity|split; [exact R|exact I]].
+    - exists l. rewrite Hsz. split; [reflexivity|split; [exact R|exact I]].
+    - exists l. rewrite Hcap. split; [reflexivity|split; [exact R|exact I]].
+  Qed.
+
+  Lemma lfu_inv_any : forall t t' (s : lf K V), lfu_inv t s -> (0 <= t')%Z -> lfu_inv t' s.
+  Proof. intros t t' s (I & _ & F) L. split; [exact I|]. split; [exact L|exact F]. Qed.
+
+  (* CHANGED w.r.t. the original statement: the hypothesis [(0 <= now)%Z] is added.  Without it
+     the third conjunct [lfu_inv now _] is false for now < 0 (lfu_inv t s contains 0 <= t);
+     [fu_step_refines_t] above is the variant without any hypothesis on [now] (it concludes
+     [lfu_inv t _] for the same t). *)
+  Theorem fu_step_refines : forall t (l : lfdl K V) (s : lf K V) o now rnd,
+      lfu_inv t s -> (0 <= now)%Z -> fu_rep l s ->
+      exists l', dl_step false l o now rnd = Ok (l', snd (lfu_step s o now rnd)) /\
                  fu_rep l' (fst (lfu_step s o now rnd)) /\ lfu_inv now (fst (lfu_step s o now rnd)).
-  Admitted.
+  Proof.
+    intros t l s o now rnd I L R.
+    destruct (fu_step_refines_t t l s o now rnd I R) as (l' & D & R' & I').
+    exists l'. split; [exact D|]. split; [exact R'|]. eapply lfu_inv_any; eauto.
+  Qed.
 
   Fixpoint fu_run (l : lfdl K V) (h : list (ev K V)) : res (lfdl K V * list (ret K V)) :=
     match h with
@@ -52,15 +923,59 @@ Section LfuLitFacts.
                 do z <- fu_run l1 r; let '(l2, ys) := z in Ok (l2, y :: ys)
     end.
 
+  (* no hypothesis on the clock readings is needed: lfu_cache never looks at the clock *)
+  Lemma fu_run_refines : forall h t (l : lfdl K V) (s : lf K V),
+      lfu_inv t s -> fu_rep l s ->
+      exists l', fu_run l h = Ok (l', snd (run lfu_step s h)) /\
+                 fu_rep l' (fst (run lfu_step s h)).
+  Proof.
+    induction h as [|e r IH]; intros t l s I R; simpl.
+    - exists l. auto.
+    - destruct (fu_step_refines_t t l s (e_op e) (e_now e) (e_rnd e) I R) as (l1 & D1 & R1 & I1).
+      rewrite D1. cbn [bind]. unfold step_ev.
+      destruct (lfu_step s (e_op e) (e_now e) (e_rnd e)) as [s1 y1]. cbn [fst snd] in *.
+      destruct (IH t l1 s1 I1 R1) as (l2 & D2 & R2).
+      rewrite D2. cbn [bind].
+      destruct (run lfu_step s1 r) as [s2 ys]. cbn [fst snd] in *.
+      exists l2. split; [reflexivity|exact R2].
+  Qed.
+
   Theorem fu_no_UB_on_any_history : forall cap h,
       1 <= cap -> Forall (fun e => (0 <= e_now e)%Z) h ->
       exists l', fu_run (lfdl_init cap 1 1 0) h = Ok (l', snd (run lfu_step (lfu_init cap) h)) /\
                  fu_rep l' (fst (run lfu_step (lfu_init cap) h)).
-  Admitted.
+  Proof.
+    intros cap h Hc _.
+    apply (fu_run_refines h 0%Z).
+    - apply lfu_inv_init; auto. lia.
+    - apply fu_rep_init; auto.
+  Qed.
 
+  Lemma lfu_step_cap : forall (s : lf K V) o now rnd, lf_cap (fst (lfu_step s o now rnd)) = lf_cap s.
+  Proof.
+    intros s o now rnd.
+    destruct (lfu_step_cases s o now rnd) as [[EO E]|[NO E]]; rewrite E; [reflexivity|].
+    apply lf_step_cap.
+  Qed.
+
+  Lemma lfu_run_cap : forall h (s : lf K V), lf_cap (fst (run lfu_step s h)) = lf_cap s.
+  Proof.
+    induction h as [|e r IH]; intros s; simpl; auto.
+    unfold step_ev. pose proof (lfu_step_cap s (e_op e) (e_now e) (e_rnd e)) as X.
+    destruct (lfu_step s (e_op e) (e_now e) (e_rnd e)) as [s1 y].
+    pose proof (IH s1) as Y. destruct (run lfu_step s1 r) as [s2 ys]. simpl in *. congruence.
+  Qed.
+
+  (* the number of list nodes / value cells never changes *)
   Theorem fu_value_cells_constant : forall cap h l' rs,
       1 <= cap -> Forall (fun e => (0 <= e_now e)%Z) h ->
       fu_run (lfdl_init cap 1 1 0) h = Ok (l', rs) ->
       List.length (dl_cells l') = cap /\ List.length (dl_list l') = cap.
-  Admitted.
+  Proof.
+    intros cap h l' rs Hc F E.
+    destruct (fu_no_UB_on_any_history cap h Hc F) as (l2 & D & R).
+    rewrite D in E. injection E as E1 E2. subst l2.
+    destruct (fu_rep_sizes _ _ R) as (_ & Hl & Hcl).
+    rewrite lfu_run_cap in Hl, Hcl. simpl in Hl, Hcl. auto.
+  Qed.
 End LfuLitFacts.
